@@ -356,6 +356,11 @@ def r_selfnode_deref(ctx):
 
 
 # ----------------------------------------------------------------------------- C20
+def _table_get(P, f, e, attr):
+    """e is `self.<attr>.get(key[, default])`"""
+    return isinstance(e, ast.Call) and isinstance(e.func, ast.Attribute) and e.func.attr == 'get' and P.self_attr(e.func.value, f.self_name) == attr and bool(e.args)
+
+
 def fallback_site(ctx):
     """(function, majority test, counted condition ast) of the leader fallback: the majority test whose counter counts
     recent responders (its counting condition reads the last-response table, by subscript or by iterating its values)"""
@@ -374,7 +379,8 @@ def fallback_site(ctx):
             continue
         by_sub = any(isinstance(s_, ast.Subscript) and P.self_attr(s_.value, f.self_name) == R.lastResponseTime for s_ in ast.walk(cond))
         by_iter = it is not None and any(P.self_attr(x, f.self_name) == R.lastResponseTime for x in ast.walk(it))
-        if by_sub or by_iter:
+        by_get = any(_table_get(P, f, s_, R.lastResponseTime) for s_ in ast.walk(cond))
+        if by_sub or by_iter or by_get:
             best = (f, cmpn, extra)
     if best is None:
         raise AnalysisError('leader fallback test (majority over recent responders) not found')
@@ -430,8 +436,17 @@ def r_fallback_every_tick(ctx):
     okc = False
     if isinstance(c, ast.Compare) and len(c.ops) == 1:
         l, r, op = c.left, c.comparators[0], c.ops[0]
-        l_is = (isinstance(l, ast.Subscript) and P.self_attr(l.value, ff.self_name) == R.lastResponseTime) or (iter_is_table and isinstance(l, ast.Name) and l.id in varnames)
+        def is_entry(e):
+            return (isinstance(e, ast.Subscript) and P.self_attr(e.value, ff.self_name) == R.lastResponseTime) or _table_get(P, ff, e, R.lastResponseTime) \
+                or (iter_is_table and isinstance(e, ast.Name) and e.id in varnames)
+        l_is = is_entry(l)
         other = r if l_is else l
+        # a voter without an entry must not count as "answered just now"
+        for g_ in (l, r):
+            if _table_get(P, ff, g_, R.lastResponseTime) and len(g_.args) > 1 and any(_is_clock_call(x) for x in ast.walk(g_.args[1])):
+                ctx.violation('%s:fallback-missing-entry-counts-as-recent' % ff.qualname, ff.loc(g_),
+                              '`%s`: a voter that never answered (no entry) is counted as having answered now, on every tick -- with such a voter the leader never steps down'
+                              % unparse(g_), instance='a voter without a response entry is not counted as alive')
         good_dir = (l_is and isinstance(op, (ast.Gt, ast.GtE))) or (not l_is and isinstance(op, (ast.Lt, ast.LtE)))
         d = other
         if isinstance(other, ast.Name):
@@ -499,7 +514,16 @@ def r_response_time_writes(ctx):
                     ctx.violation('%s:response-time-refreshed-by-other-message' % f.qualname, f.loc(st),
                                   'the last response time is refreshed by something other than a next_node_idx reply received as leader', instance=inst)
             else:
-                ctx.ok(inst, f.loc(st), 'initialisation with the current time', nontrivial=False)
+                # outside the handler only an initial stamp is legitimate (a voter that just became one, or all voters when
+                # this node was just elected): never a transport event -- a (re)connection is not a response
+                conn_events = [m for k, m in R.slot_methods.items() if m is not None and m is not R.handler and 'onnected' in k]
+                reach = P.reachable_funcs(conn_events, follow_field=False) if conn_events else set()
+                if f in conn_events:
+                    ctx.violation('%s:response-time-refreshed-by-connection-event' % f.qualname, f.loc(st),
+                                  'the last response time of a voter is refreshed by a connection event: a cut-off leader whose links flap keeps counting silent voters as responsive '
+                                  'and never steps down', instance=inst)
+                else:
+                    ctx.ok(inst, f.loc(st), 'initialisation with the current time (not in a connection-event callback)', nontrivial=False)
     ctx.expect_min(2)
 
 
